@@ -3,6 +3,7 @@ module verif
 go 1.26.0
 
 require (
+	go.etcd.io/bbolt v1.5.0
 	go.sia.tech/core v0.21.7
 	go.sia.tech/coreutils v0.0.0
 	golang.org/x/crypto v0.54.0
